@@ -233,7 +233,7 @@ def run(ctx):
     ctx.count("exhaustive_strings", total["n"])
     ctx.distinct_extra += total["grammar"]
     rng = ctx.sub_rng("gen")
-    nrand = 40000 if quick else 800000
+    nrand = 150000 if quick else 1000000
     rand = set()
     for _ in range(nrand):
         rand.add(mutate(gen_struct(rng), rng))
